@@ -118,3 +118,82 @@ func c17panicPayloads(c *Ctx, hooked bool) {
 		w.Nontrivial(hashStrs("panicpayload", pc.name, shape, sprint(hooked)))
 	})
 }
+
+// c17nestedCauses: a hook that prints the cause of an error through the printer it was given (Print for odd ids, Printf
+// for even ones): the cause is itself rendered by the hook, also when outer error and cause have the same dynamic
+// type and that type is not comparable.
+func c17nestedCauses(c *Ctx, hooked bool) {
+	shapes := []string{"top", "slice", "safe", "unsafe", "errorf"}
+	type job struct{ id, s int }
+	var jobs []job
+	for _, id := range []int{801, 802} {
+		for s := range shapes {
+			jobs = append(jobs, job{id, s})
+		}
+	}
+	c.ParallelFor(int64(len(jobs)), func(w *Worker, i int64) {
+		id, shape := jobs[i].id, shapes[jobs[i].s]
+		lg := &hookLog{}
+		logf := func() *hookLog { return lg }
+		inner := hNestErr{hBase{id + 10, logf, false}, []string{"t"}, nil}
+		e := hNestErr{hBase{id, logf, false}, []string{"a", "b"}, inner}
+		h := func(n int, safe bool) string {
+			d := wrapUnsafe("d" + itoa(n))
+			if safe {
+				d = "d" + itoa(n)
+			}
+			return "H<" + itoa(n) + "|v|" + d + ">"
+		}
+		plain := wrapUnsafe(e.Error())
+		var out, want string
+		var rerr error
+		wantCalls := 2
+		pan := func() (p interface{}) {
+			defer func() { p = recover() }()
+			switch shape {
+			case "top":
+				out, want = string(redact.Sprintf("a %v z", e)), "a "+h(id, false)+h(id+10, false)+" z"
+			case "slice":
+				out, want = string(redact.Sprintf("a %v z", []interface{}{e})), "a ["+h(id, false)+h(id+10, false)+"] z"
+			case "safe":
+				out, want = string(redact.Sprintf("a %v z", redact.Safe(e))), "a "+h(id, true)+h(id+10, true)+" z"
+			case "unsafe":
+				out, want = string(redact.Sprintf("a %v z", redact.Unsafe(e))), "a "+plain+" z"
+				wantCalls = 0
+			default:
+				var s redact.RedactableString
+				s, rerr = redact.HelperForErrorf("a %w z", e)
+				out, want = string(s), "a "+h(id, false)+h(id+10, false)+" z"
+			}
+			return nil
+		}()
+		if !hooked {
+			want, wantCalls = "a "+plain+" z", 0
+			if shape == "slice" {
+				want = "a [" + plain + "] z"
+			}
+			if shape == "safe" {
+				want = "a " + e.Error() + " z"
+			}
+		}
+		w.Eval(1)
+		cs := map[string]string{"shape": shape, "hook": sprint(hooked), "id": itoa(id)}
+		if pan != nil {
+			w.Violate("C17 nested-cause", "panic escaped ("+pvalString(pan)+"): an error whose cause the hook prints, shape "+shape, cs)
+			return
+		}
+		if canon(out) != canon(want) {
+			w.Violate("C17 nested-cause", "an error of an uncomparable type whose cause (same type) the hook prints through its printer, shape "+shape+", hook "+sprint(hooked)+": got "+q(out)+", want "+q(want), cs)
+			return
+		}
+		if len(lg.calls) != wantCalls {
+			w.Violate("C17 nested-cause", "hook called "+itoa(len(lg.calls))+" times, want "+itoa(wantCalls)+" (outer error and its cause), shape "+shape+", hook "+sprint(hooked), cs)
+			return
+		}
+		if shape == "errorf" && rerr == nil {
+			w.Violate("C17 nested-cause", "HelperForErrorf(%w) did not return the error", cs)
+			return
+		}
+		w.Nontrivial(hashStrs("nestedcause", shape, itoa(id), sprint(hooked)))
+	})
+}
